@@ -71,7 +71,7 @@ def build(rng):
 # span several lines.  (text of the failing construct, 0-based offset of the line of the failing OPERATOR inside it)
 CORE_FAIL = [("(2 / 0)", 0), ("(7 %\n  0)", 0), ("(2\n  / 0)", 1), ("(1\n  +\n  'c')", 1), ("(null -\n  1)", 0), ("(-'c')", 0), ("(-\n  'c')", 0), ("(~1.5)", 0), ("(~\n\n  null)", 0),
              ("(true < false)", 0), ("(1 <=\n  null)", 0), ("(1 << \"\")", 0), ("(1.5 &\n  1)", 0), ("(b'a' *\n  'c')", 0), ("((1 / 0) +\n  (2 / 0))", 0), ("((1 - null) <\n  (2 / 0))", 1),
-             ("((1 - null)\n  <=\n  (2 % 0))", 2), ("(if true {\n  'c' - 1\n})", 1), ("(if 1 > 2 { 1 } else {\n  1 /\n  0\n})", 2), ("(false ||\n  (1 / 0))", 1), ("(1 &&\n  (null\n  * 2))", 2),
+             ("((1 - null)\n  <=\n  (2 % 0))", 2), ("(if true {\n  'c' - 1\n})", 1), ("(if 1 > 2 { 1 } else {\n  1 /\n  0\n})", 1), ("(false ||\n  (1 / 0))", 1), ("(1 &&\n  (null\n  * 2))", 2),
              ("(!(1 / 0))", 0), ("(9223372036854775807 +\n  (1 % 0))", 1)]
 CORE_FILLER = ["", "# a comment", "// another comment", "let k{n} = {n};", "k0 = k0 + 1;", "{{ let inner{n} = k0 * 2; }}", "if k0 > 100 {{ k0 }} else {{ 0 }};",
                "let q{n} = 0; while q{n} < 3 {{ q{n} = q{n} + 1; }}", "k0 = (k0\n  +\n  1);", "false && (1 / 0);", "true || (1 % 0);"]
